@@ -260,6 +260,21 @@ def check():
     # ------------------------------------------------------------------ 7. which file is the target: both configuration routes
     config_lemmas(o, L, ML, bad, on_sat)
 
+    # ------------------------------------------------------------------ 8. "the same sources" of the language server: its open buffers over
+    # the files on disk, and a closed buffer is the file again (store lemmas of C15)
+    try:
+        import importlib
+        c15 = importlib.import_module("props.c15")
+
+        def structural(name, ok, why=None):
+            o.query(name, "mirsym/structural", "unsat" if ok else "violated", 0)
+            if not ok and (why or name) not in bad:
+                bad.append(why or name)
+            return ok
+        c15.store_lemmas(o, ML, E, structural)
+    except KeyError as e:
+        o.inconc(str(e)[:160])
+
     o.samples = samples + [{"query": q["name"], "verdict": q["verdict"]} for q in o.queries[:6]]
     # ------------------------------------------------------------------ replay on the real CLI
     if True:   # the real-binary oracle is cheap: always run it (replay of a failing lemma, or translator validation)
@@ -581,6 +596,26 @@ def real_cli_matrix():
                 mism.append("%s: the language server died" % name)
             elif (ndiag > 0) == cli_ok:
                 mism.append("%s: the CLI %s but the language server published %d diagnostics" % (name, "succeeds" if cli_ok else "fails", ndiag))
+        # ... and the sources of the server are what the client last told it: a buffer that is edited and then closed
+        # without saving is the file on disk again. For every (accepted, rejected) pair of single-module cases, both ways round:
+        # disk has A, the buffer is opened with A, replaced by B, closed - the server must say what the CLI says about A
+        good = [n for n, (src, extra, want) in CASES.items() if want == 0 and not extra and "use " not in src][:2]
+        poor = [n for n, (src, extra, want) in CASES.items() if want != 0 and not extra and "use " not in src]
+        pairs = [(g, b) for g in good[:1] for b in poor] + [(b, g) for g in good[:1] for b in poor]
+        for a_name, b_name in pairs:
+            A, B = CASES[a_name][0], CASES[b_name][0]
+            cli_ok = detail[a_name]["rc"] == 0
+            d = os.path.join(rdir, "closed-%s-after-editing-into-%s.lsp" % (a_name, b_name))
+            disk = {"main.oal": A, "oal.toml": '[api]\nmain = "main.oal"\ntarget = "out.yaml"\n'}
+            a = lspdrv.session(lsp, d, disk, [("open", "main.oal", A), ("sync", "main.oal"), ("change", "main.oal", [(None, B)]), ("sync", "main.oal"),
+                                              ("close", "main.oal"), ("sync", "main.oal")], ("main.oal", {"line": 0, "character": 0}))
+            ndiag = sum(len(v) for v in (a.get("diags") or {}).values())
+            detail["closed-%s-after-editing-into-%s" % (a_name, b_name)] = {"lsp_diagnostics": ndiag, "cli_ok_on_disk": cli_ok}
+            if not a.get("alive"):
+                mism.append("closed %s after editing it into %s: the language server died" % (a_name, b_name))
+            elif (ndiag > 0) == cli_ok:
+                mism.append("a buffer edited from '%s' into '%s' and closed without saving: the CLI %s on the files but the language server holds %d diagnostics" % (
+                    a_name, b_name, "succeeds" if cli_ok else "fails", ndiag))
     except Exception as ex:
         mism.append("playground / language-server comparison could not run: %s" % str(ex)[:120])
     # the other configuration route: everything in a config file (-c), nothing on the command line; and a mix of both.
